@@ -174,10 +174,14 @@ def build_spec(recipe):
 # ----------------------------------------------------------------------------
 # the history machine
 # ----------------------------------------------------------------------------
-def band_of(min_site_ll):
-    if min_site_ll >= LOG_MIN_NORMAL:
+LIMITS = {"float64": (LOG_MIN_NORMAL, LOG_MIN_SUBNORMAL), "float32": (math.log(1.1754943508222875e-38), math.log(1.401298464324817e-45))}
+
+
+def band_of(min_site_ll, dtype="float64"):
+    lo_normal, lo_sub = LIMITS[dtype]
+    if min_site_ll >= lo_normal:
         return "normal"
-    if min_site_ll >= LOG_MIN_SUBNORMAL:
+    if min_site_ll >= lo_sub:
         return "subnormal"
     return "underflow"
 
@@ -188,10 +192,18 @@ class Machine:
 
         self.recipe = recipe
         self.log = log
+        self.dtype = recipe.get("dtype", "float64")
+        self.tdtype = getattr(torch, self.dtype)
+        # single precision: only "finite whenever the true value is finite" and gross agreement are judged
+        self.rtol = 1e-8 if self.dtype == "float64" else 2e-3
         self.spec, self.seqs, self.base = build_spec(recipe)
-        self.dic = freshlib.build(self.spec)
+        torch.set_default_dtype(self.tdtype)
+        try:
+            self.dic = freshlib.build(self.spec)
+            self.twin_dic = freshlib.build(self.spec)
+        finally:
+            torch.set_default_dtype(torch.float64)
         self.like = self.dic["like"]
-        self.twin_dic = freshlib.build(self.spec)
         self.twin = self.twin_dic["like"]
         self.twin.rescale = True
         self.rooted = bool(recipe.get("clock"))
@@ -225,8 +237,12 @@ class Machine:
                     import torch
 
                     sm = self.twin_dic["sitemodel"]
-                    with torch.no_grad():
-                        self._cats = (sm.rates().reshape(-1).tolist(), sm.probabilities().reshape(-1).tolist())
+                    torch.set_default_dtype(self.tdtype)
+                    try:
+                        with torch.no_grad():
+                            self._cats = (sm.rates().reshape(-1).tolist(), sm.probabilities().reshape(-1).tolist())
+                    finally:
+                        torch.set_default_dtype(torch.float64)
                 rates, probs = self._cats
                 per = [refprune.site_log_likelihoods(self.postorder, self.n, bl * r, self.seqs, self.recipe["model"], kappa, pi, rooted=self.rooted) + math.log(p)
                        for r, p in zip(rates, probs) if p > 0]
@@ -237,19 +253,19 @@ class Machine:
     def set_inputs(self, model_dic, scales, kappas):
         import torch
 
-        base = torch.tensor(self.base, dtype=torch.float64)
+        base = torch.tensor(self.base, dtype=self.tdtype)
         if self.rooted:
             # the scale is the clock rate; a batch is a [S, 1] rate against one set of node heights
-            model_dic["rate"].tensor = torch.tensor([scales[0]] if len(scales) == 1 else [[s] for s in scales], dtype=torch.float64)
+            model_dic["rate"].tensor = torch.tensor([scales[0]] if len(scales) == 1 else [[s] for s in scales], dtype=self.tdtype)
         elif len(scales) == 1:
             model_dic["blens"].tensor = base * scales[0]
         else:
             model_dic["blens"].tensor = torch.stack([base * s for s in scales])
         if self.recipe["model"] == "HKY":
             if len(kappas) == 1:
-                model_dic["kappa"].tensor = torch.tensor([kappas[0]], dtype=torch.float64)
+                model_dic["kappa"].tensor = torch.tensor([kappas[0]], dtype=self.tdtype)
             else:
-                model_dic["kappa"].tensor = torch.tensor([[k] for k in kappas], dtype=torch.float64)
+                model_dic["kappa"].tensor = torch.tensor([[k] for k in kappas], dtype=self.tdtype)
 
     def apply(self, op):
         import torch
@@ -286,13 +302,17 @@ class Machine:
 
         self.stats["evals"] += 1
         flag_before = bool(self.like.rescale)
-        with torch.no_grad():
-            try:
-                lp = self.like()
-            except Exception as e:  # noqa: BLE001
-                self.violate("raises", flag_before, "?", "evaluation raised %s: %s" % (type(e).__name__, str(e)[:200]))
-                return False
-            tw = self.twin()
+        torch.set_default_dtype(self.tdtype)  # (a run with --dtype float32 has this default throughout)
+        try:
+            with torch.no_grad():
+                try:
+                    lp = self.like()
+                except Exception as e:  # noqa: BLE001
+                    self.violate("raises", flag_before, "?", "evaluation raised %s: %s" % (type(e).__name__, str(e)[:200]))
+                    return False
+                tw = self.twin()
+        finally:
+            torch.set_default_dtype(torch.float64)
         flag_after = bool(self.like.rescale)
         if flag_after and not flag_before:
             self.stats["switches"] += 1
@@ -304,7 +324,7 @@ class Machine:
         for r, s in enumerate(self.scales):
             k = self.kappa[r] if len(self.kappa) > 1 else self.kappa[0]
             ref, min_site = self.reference(s, k)
-            band = band_of(min_site)
+            band = band_of(min_site, self.dtype)
             bands.append(band)
             self.stats["rows"] += 1
             v = lp[r] if r < len(lp) else float("nan")
@@ -313,12 +333,12 @@ class Machine:
                 if not math.isfinite(v):
                     self.violate("nonfinite", flag_before, band, "row %d: log-likelihood is %r but the reference is finite (%.10g); scale=%g taxa=%d rescale flag before=%s after=%s" % (r, v, ref, s, self.n, flag_before, flag_after), batched)
                     ok = False
-                elif abs(v - ref) > 1e-8 * abs(ref):
+                elif abs(v - ref) > self.rtol * abs(ref):
                     self.violate("accuracy", flag_before, band, "row %d: log-likelihood %.12g differs from the log-space reference %.12g (rel %.3g); scale=%g taxa=%d rescale flag before=%s after=%s" % (r, v, ref, abs(v - ref) / abs(ref), s, self.n, flag_before, flag_after), batched)
                     ok = False
                 t = tw[r] if r < len(tw) else float("nan")
                 self.stats["twin_checks"] += 1
-                if math.isfinite(t) and math.isfinite(v) and abs(t - v) > 1e-8 * abs(ref):
+                if math.isfinite(t) and math.isfinite(v) and abs(t - v) > self.rtol * abs(ref):
                     self.violate("twin", flag_before, band, "row %d: model %.12g and always-rescaled twin %.12g disagree" % (r, v, t), batched)
                     ok = False
         state = "%s|%s|%s|%s|K%d" % ("R" if flag_before else "P", "batched" if batched else "single", "+".join(sorted(set(bands))), "states" if self.recipe.get("tip_states") else "partials", self.recipe.get("categories", 1) + (1 if self.recipe.get("invariant") else 0))
@@ -329,7 +349,9 @@ class Machine:
     def violate(self, oracle, flag, band, msg, batched=False):
         self.violations.append({"signature": {"engine": "hist_rescale", "oracle": oracle, "rescale_before": str(flag), "band": band,
                                               "batch": "batched" if batched else "single", "tips": "states" if self.recipe.get("tip_states") else "partials",
-                                              "zero_rate_category": str(bool(self.recipe.get("invariant"))), "data": self.recipe.get("style", "?")},
+                                              "zero_rate_category": str(bool(self.recipe.get("invariant"))), "data": self.recipe.get("style", "?"),
+                                              # rate categories whose rates differ by orders of magnitude (Weibull shape <= 0.3): the slowest one is all but invariant
+                                              "rate_spread": "extreme" if self.recipe.get("categories", 1) > 1 and self.recipe.get("shape_value", 1.0) <= 0.3 else "moderate"},
                                 "message": msg})
 
 
@@ -350,25 +372,31 @@ def find_scales(machine, kappa):
     """Scale factors that put the smallest per-site likelihood into each band
     (by search on the reference), None when a band is unreachable for this scene."""
     out = {"normal": None, "subnormal": None, "underflow": None}
+    LOG_SUB = LIMITS[machine.dtype][1]
+    span = LIMITS[machine.dtype][0] - LOG_SUB  # width of the sub-normal band in nats (36.7 double, 16.1 single)
     grid = [0.0004 * (1.45 ** i) for i in range(32)] if machine.recipe["sites"] < 100 else [0.02 * (1.6 ** i) for i in range(14)]
     vals = []
     for s in grid:
         _, mn = machine.reference(s, kappa)
         vals.append((s, mn))
-        b = band_of(mn)
+        b = band_of(mn, machine.dtype)
         if out[b] is None or b == "normal":
             out[b] = s if out[b] is None else out[b]
     # long (saturated) branches that still leave every site in the normal range: small and medium trees
-    sat = [s for s, mn in vals if band_of(mn) == "normal"]
+    sat = [s for s, mn in vals if band_of(mn, machine.dtype) == "normal"]
     if sat and out["normal"] is not None and sat[-1] > 20 * out["normal"]:
         out["saturated"] = sat[-1]
+    # the far end of the grid (branches long enough to forget the data) when it is beyond the normal range:
+    # an evaluation there switches the flag from total underflow at every node, not from the band
+    if vals and band_of(vals[-1][1], machine.dtype) != "normal":
+        out["far"] = vals[-1][0]
     # refine a sub-normal point by bisection between a normal and an underflow scale
     if out["subnormal"] is None and out["normal"] is not None and out["underflow"] is not None:
         lo, hi = out["normal"], out["underflow"]
         for _ in range(30):
             mid = math.sqrt(lo * hi)
             _, mn = machine.reference(mid, kappa)
-            b = band_of(mn)
+            b = band_of(mn, machine.dtype)
             if b == "subnormal":
                 out["subnormal"] = mid
                 break
@@ -382,10 +410,10 @@ def find_scales(machine, kappa):
         for _ in range(40):
             mid = math.sqrt(lo * hi)
             _, mn = machine.reference(mid, kappa)
-            if LOG_MIN_SUBNORMAL + 0.1 <= mn <= LOG_MIN_SUBNORMAL + 5.0:
+            if LOG_SUB + 0.1 <= mn <= LOG_SUB + 5.0:
                 out["deep"] = mid
                 break
-            if mn > LOG_MIN_SUBNORMAL + 5.0:
+            if mn > LOG_SUB + 5.0:
                 lo = mid
             else:
                 hi = mid
@@ -397,10 +425,10 @@ def find_scales(machine, kappa):
         for _ in range(40):
             mid = math.sqrt(lo * hi)
             _, mn = machine.reference(mid, kappa)
-            if mn0 - 744.0 <= mn <= mn0 - 740.0:
+            if mn0 + LOG_SUB + 0.4 <= mn <= mn0 + LOG_SUB + 4.4:
                 out["drop"] = mid
                 break
-            if mn > mn0 - 740.0:
+            if mn > mn0 + LOG_SUB + 4.4:
                 lo = mid
             else:
                 hi = mid
@@ -422,6 +450,19 @@ def generate(seed, index, tier):
               "model": k.choice(["JC69", "HKY"]), "tip_states": k.bernoulli(0.4), "data_seed": k.next64() & 0xFFFFFFFF, "kappa": round(k.uniform(0.5, 6.0), 3),
               "categories": k.choice([1, 1, 2, 4]), "shape_value": round(k.uniform(0.3, 2.0), 3), "invariant": k.choice([None, None, 0.2, 0.5])}
     k2 = st["knobs2"]
+    k3 = st["knobs3"]
+    if k3.bernoulli(0.25):
+        recipe["shape_value"] = round(k3.uniform(0.05, 0.3), 3)  # rate categories spanning orders of magnitude
+    if k3.bernoulli(0.22) and style != "clade" and not many_sites:
+        # single precision: smaller trees reach its (much closer) underflow limits
+        recipe["dtype"] = "float32"
+        recipe["taxa"] = k3.choice([50, 128, 130, 250, 256, 300])
+        if k3.bernoulli(0.4):
+            recipe["shape"] = "balanced"
+        # stay out of the region of the known shared-scaler finding, which single precision reaches with
+        # ~100 taxa and ordinary data: no zero-rate category, no extreme spread of the category rates
+        recipe["invariant"] = None
+        recipe["shape_value"] = max(recipe["shape_value"], 0.5)
     if style in ("random", "conserved") and not many_sites and k2.bernoulli(0.4):
         recipe["dup_columns"] = k2.randint(1, 6)
     if style != "clade" and k2.bernoulli(0.3):
@@ -500,6 +541,8 @@ def generate(seed, index, tier):
         if "normal" in avail and w.bernoulli(0.4):
             first = [{"op": "set", "scales": [sc["normal"], sc["deep"]]}, {"op": "eval"}]
         ops = first + ops
+    if sc.get("far") is not None and w2.bernoulli(0.6 if recipe.get("dtype") == "float32" else 0.25):
+        ops = [{"op": "set", "scales": [sc["far"]]}, {"op": "eval"}] + ops
     # make sure the history revisits an easy input after a hard one
     if "normal" in avail and len(avail) > 1:
         ops += [{"op": "set", "scales": [sc[avail[-1]]]}, {"op": "eval"}, {"op": "set", "scales": [sc["normal"]]}, {"op": "eval"}]
